@@ -322,6 +322,30 @@ def run(chk):
                 chk.broken.append(('correspondence', 'block-assembly', {'request': q, 'model': g_, 'real': e_}))
                 chk.say('block-assembly disagree:', q, '| model', g_, '| real', e_)
     chk.stats['block-assembly'] = {'cases': len(reqs), 'disagree': nb}
+    # search for a failing input among the disagreements: the model states the rule (as repaired); a sequence the model rejects
+    # and the whole compiler accepts (or crashes on) is a static error that is not rejected with a diagnostic
+    nsearch = 0
+    for q, g_, e_ in zip(reqs, got, exp):
+        if g_ == 'ok' or nsearch >= 40:
+            continue
+        gp = g_.split()
+        if f'err {gp[1]} {gp[3]}' == e_:
+            continue
+        nsearch += 1
+        src = render(q.split()[1:]) + '\n'
+        st = real.big_frame(lambda: real.try_compile(src, 0, False))
+        cls = {'without': 'block terminator without its opener', 'expected': 'block closed by the wrong terminator',
+               'midwithout': 'ELSE / ELSEIF / CASE outside its block', 'notclosed': 'unclosed block', 'elseafter': 'ELSE after ELSE',
+               'beforecase': 'statement between SELECT CASE and CASE', 'intype': 'statement illegal in TYPE'}.get(gp[1], gp[1])
+        if st[0] == 'ok':
+            chk.finding(f'C05 accepted: {cls} (statement sequence)', f'line {gp[3]} of {q}', {'kind': 'c05', 'src': src, 'O': 0, 'g': False,
+                        'want': 'syntax', 'want_line': int(gp[3]), 'fault': cls, 'site': 'sequence'})
+        elif st[0] == 'internal':
+            chk.finding(f'C05 internal error instead of a diagnostic: {cls} (statement sequence)', f'{type(st[1]).__name__} on {q}',
+                        {'kind': 'c05', 'src': src, 'O': 0, 'g': False, 'want': 'syntax', 'want_line': int(gp[3]), 'fault': cls, 'site': 'sequence'})
+        elif getattr(st[1], 'loc_start', None) is not None and line_of(src, st[1].loc_start) != int(gp[3]):
+            chk.finding(f'C05 diagnostic on another line: {cls} (statement sequence)', f'line {line_of(src, st[1].loc_start)} instead of {gp[3]}: {q}',
+                        {'kind': 'c05', 'src': src, 'O': 0, 'g': False, 'want': 'syntax', 'want_line': int(gp[3]), 'fault': cls, 'site': 'sequence'})
     # fault injection
     tasks = [(rng.randrange(1 << 30), 12) for _ in range(chk.n(40, 800))]
     fres = real.pmap(task, tasks)
